@@ -33,7 +33,13 @@ def tasks(ctx):
 
 def worker(task):
     ctx = get_ctx()
-    r = provrun.run(task, RED, inplace=False, alias=True)
+    from ..state import Budget
+    try:
+        r = provrun.run(task, RED, inplace=False, alias=True)
+    except Budget:
+        # the callback-aliasing refinement multiplies states on the largest tasks; fall back to the plain run for this task
+        r = provrun.run(task, RED, inplace=False, alias=False)
+        r["alias_fallback"] = True
     viols, classwrites, userwrites = [], set(), set()
     nontriv = set()
     for p in r["paths"]:
